@@ -201,7 +201,7 @@ Fixpoint store_tree (fuel : nat) (id : N) (t : vtree) : M unit :=
     | VChar ch, PChar _ => set_cell_val id (PChar ch)
     | VStr s, PStr _ => set_cell_val id (PStr s)
     | VDate d m y, PDate _ _ _ => set_cell_val id (PDate d m y)
-    | VEnum tn _ i, PEnum _ _ => set_cell_val id (PEnum tn i)
+    | VEnum tn _ i, PEnum tn0 _ => if str_eqb tn tn0 then set_cell_val id (PEnum tn0 i) else crash "cell payload disagrees with its type"
     | VPtr, _ => ret Datatypes.tt
     | VRec _ fs ars, PRec _ rc =>
       cx <- get_ctx rc ;;
